@@ -172,7 +172,7 @@ func valueClasses(w int, valid string) []string {
 		}
 		return strings.Repeat("A", n)
 	}
-	out := []string{"", " ", "   ", "A", rep(w - 1), rep(w), rep(w + 1), rep(w) + " ", " " + rep(w-1), rep(w+3),
+	out := []string{"", " ", "   ", "A", rep(w - 1), rep(w), rep(w + 1), rep(w) + " ", " " + rep(w-1), rep(w + 3),
 		"A B", " A", "A ", "a", "*", "A*", "*A", "A*B", "{", "A{1500}", "}", "\n", "A\nB", "\r\n", "\t", "A\t",
 		"\xc3\xa9", "A\xc3\xa9", "\xff", "A\xa0", "\xc2\xa0A", "~", "[", "^", "|", "0", "00", "1,5", "1.5", "-1", "+1"}
 	if valid != "" {
